@@ -421,6 +421,18 @@ def codec_decls():
          "    #[difference(recurse, collection_strategy = \"unordered_map_like\", map_equality = \"key_and_value\")]\n    pub a: std::collections::HashMap<T, K2N>,\n    #[difference(recurse, collection_strategy = \"unordered_map_like\", map_equality = \"key_only\")]\n    pub b: std::collections::HashMap<T, K2N>,\n    pub c: Option<(T, i64)>,\n    #[difference(skip)]\n    pub d: [u8; N],\n",
          "impl<T: Mk + Clone + PartialEq + std::fmt::Debug + std::hash::Hash + Eq + 'static, const N: usize> Mk for K2<T, N> { fn mk(s: u64) -> Self { K2 { a: Mk::mk(s), b: Mk::mk(s + 1), c: Mk::mk(s + 2), d: Mk::mk(s + 3) } } }\n",
          "        if r.c != b.c || r.d != a.d { return Err(format!(\"round trip: {:?} != {:?}\", r, b)); }\n        let ka: std::collections::BTreeSet<_> = r.a.keys().collect(); let kb: std::collections::BTreeSet<_> = b.a.keys().collect(); if ka != kb { return Err(format!(\"keys of a: {:?} != {:?}\", ka, kb)); }\n        for (k, v) in &r.a { let w = &b.a[k]; if v.x != w.x || v.y != w.y { return Err(format!(\"value of a[{:?}]\", k)); } }\n        let ka: std::collections::BTreeSet<_> = r.b.keys().collect(); let kb: std::collections::BTreeSet<_> = b.b.keys().collect(); if ka != kb { return Err(format!(\"keys of b: {:?} != {:?}\", ka, kb)); }\n")
+    decl('K6', "pub struct K6<T: Clone + PartialEq + std::fmt::Debug, U: Clone + PartialEq + std::fmt::Debug>", "K6<i64, String>",
+         "    pub a: Option<T>,\n    pub b: Box<U>,\n    pub c: (T, U),\n    pub d: Vec<Option<(U, T)>>,\n    pub e: std::collections::HashMap<String, Vec<T>>,\n",
+         "impl<T: Mk + Clone + PartialEq + std::fmt::Debug, U: Mk + Clone + PartialEq + std::fmt::Debug> Mk for K6<T, U> { fn mk(s: u64) -> Self { K6 { a: Mk::mk(s), b: Mk::mk(s + 1), c: Mk::mk(s + 2), d: Mk::mk(s + 3), e: Mk::mk(s + 4) } } }\n",
+         "            if r.a != b.a || r.b != b.b || r.c != b.c || r.d != b.d || r.e != b.e { return Err(format!(\"round trip: {:?} != {:?}\", r, b)); }\n")
+    decl('K7', "#[difference(setters, expose = \"K7Delta\")]\npub struct K7<T>\nwhere T: Clone + PartialEq + std::fmt::Debug, Vec<T>: Clone", "K7<String>",
+         "    pub a: T,\n    #[difference(setter_name = \"put_b\")]\n    pub b: Vec<T>,\n    #[difference(skip_setter)]\n    pub c: Option<T>,\n    #[difference(recurse)]\n    pub d: K7N,\n",
+         "impl<T: Mk + Clone + PartialEq + std::fmt::Debug> Mk for K7<T> { fn mk(s: u64) -> Self { K7 { a: Mk::mk(s), b: Mk::mk(s + 1), c: Mk::mk(s + 2), d: Mk::mk(s + 3) } } }\n",
+         "            if r.a != b.a || r.b != b.b || r.c != b.c || r.d.x != b.d.x || r.d.y != b.d.y || r.d.z != a.d.z { return Err(format!(\"round trip: {:?} != {:?}\", r, b)); }\n")
+    decl('K8', "pub struct K8<T: Clone + PartialEq + std::fmt::Debug, U: Clone + PartialEq + std::fmt::Debug>", "K8<i64, String>",
+         "    #[difference(skip)]\n    pub a: T,\n    pub b: U,\n    #[difference(skip)]\n    pub c: Vec<T>,\n",
+         "impl<T: Mk + Clone + PartialEq + std::fmt::Debug, U: Mk + Clone + PartialEq + std::fmt::Debug> Mk for K8<T, U> { fn mk(s: u64) -> Self { K8 { a: Mk::mk(s), b: Mk::mk(s + 1), c: Mk::mk(s + 2) } } }\n",
+         "            if r.b != b.b || r.a != a.a || r.c != a.c { return Err(format!(\"round trip: {:?} != {:?}\", r, b)); }\n")
     # a generic enum: its diff carries the whole new value, so the enum itself derives the codecs
     e = ("#[cfg(feature = \"ns\")] #[allow(unused_imports)] use nanoserde::{SerBin, DeBin};\n#[derive(Debug, Clone, PartialEq, Difference)]\n#[cfg_attr(feature = \"ns\", derive(nanoserde::SerBin, nanoserde::DeBin))]\n#[cfg_attr(feature = \"sd\", derive(serde::Serialize, serde::Deserialize))]\n"
          "pub enum K3<T: Clone + PartialEq + std::fmt::Debug> { A, B(T), C { x: T, y: i64 }, D(i64, bool) }\n"
